@@ -17,9 +17,6 @@ Definition type_violations (T : tenv) (d : dist state) : list (var * (Z * positi
 Definition typed_start (T : tenv) : state :=
   fun x => match tlookup T x with Some (v :: _) => v | _ => 0%Qc end.
 
-Definition type_search (fp : flatprog) (T : tenv) (N : nat) : list (list (var * (Z * positive))) :=
-  map (fun n => type_violations T (frun no_law fp n (typed_start T))) (seq 0 (S N)).
-
 Definition flat_moments (fp : flatprog) (ms : list mono) (N : nat) : list (list (Z * positive)) :=
   map (fun n => let d := frun no_law fp n st0 in map (fun m => qpair (E d (eval_mono m))) ms) (seq 0 (S N)).
 
@@ -115,3 +112,12 @@ Fixpoint src_laws_aux (allvs obs : list var) (p : prog) (d : dist state) (N : na
   match N with O => [] | S N' => src_laws_aux allvs obs p (compact allvs (bind d (iter no_law p))) N' end.
 Definition src_laws (allvs obs : list var) (p : prog) (N : nat) :=
   src_laws_aux allvs obs p (compact allvs (exec_block no_law (p_init p) st0)) N.
+
+
+(* reachable-state search for a value outside its type, with compaction *)
+Fixpoint type_search_aux (vs : list var) (fp : flatprog) (T : tenv) (d : dist state) (N : nat)
+  : list (list (var * (Z * positive))) :=
+  type_violations T d ::
+  match N with O => [] | S N' => type_search_aux vs fp T (compact vs (bind d (fstep no_law fp))) N' end.
+Definition type_search (vs : list var) (fp : flatprog) (T : tenv) (N : nat) : list (list (var * (Z * positive))) :=
+  type_search_aux vs fp T (compact vs (exec_gas no_law (fp_init fp) (typed_start T))) N.
